@@ -86,6 +86,15 @@ Theorem start_deferred_fires_exactly_once_refuted : exists beh wc ops,
 Proof. exact deferred_refuted. Qed.
 Print Assumptions start_deferred_fires_exactly_once_refuted.
 
+(** whenever self._deferred is None -- in particular when a start() Deferred has just fired, the last action of
+    stop() / cb / eb -- the loop is idle (not running, nothing scheduled, self.call None, no Deferred of f
+    outstanding): a start() made synchronously by that Deferred's callback finds the state of a fresh start() *)
+Theorem loop_is_idle_when_its_start_deferred_has_fired_partial : forall beh, (forall k, beh k <> FRestartRet) -> forall wc ops,
+  run_ok beh wc init ops ->
+  let s := run beh wc init ops in dcur s = None -> idle s.
+Proof. exact reach_done_idle. Qed.
+Print Assumptions loop_is_idle_when_its_start_deferred_has_fired_partial.
+
 (** after stop() or a failure (loop not running, nothing outstanding) nothing is scheduled and no operation
     other than a new start() calls f *)
 Theorem no_call_after_stop_or_failure_partial : forall beh, (forall k, beh k <> FRestartRet) -> forall wc ops, run_ok beh wc init ops ->
